@@ -250,16 +250,29 @@ theorem mintNeo_spec (e : Env) (l l' : Ledger) (h : Nat) (amt : Int) (hv : Votes
       rw [u2]
     · simp at hm
 
-theorem genesis_inv (nt h : Nat) (gasInit : Int) (l : Ledger) (hh : h ≠ nt) (hg : genesis h gasInit = some l) :
-    Inv nt l := by
-  unfold genesis at hg
-  simp only [] at hg
-  generalize hl0 : ({ gpb := [(0, 500000000)] } : Ledger) = l0 at hg
-  have e0 : l0.neo = [] ∧ l0.gas = [] ∧ l0.cands = [] ∧ l0.deps = [] ∧ l0.voters = 0 ∧ l0.neoSupply = 0 ∧ l0.gasSupply = 0 := by
-    subst hl0; exact ⟨rfl, rfl, rfl, rfl, rfl, rfl, rfl⟩
+theorem sameCore_updateNewEpoch (e : Env) (l l' : Ledger) (h : updateNewEpoch e l = some l') : sameCore l l' := by
+  unfold updateNewEpoch at h
+  split at h
+  · simp at h
+  · split at h
+    · simp at h
+    · injection h with h; subst h; exact ⟨rfl, rfl, rfl, rfl, rfl, rfl, rfl⟩
+
+theorem updateNewEpoch_events (e : Env) (l l' : Ledger) (h : updateNewEpoch e l = some l') : l'.events = l.events := by
+  unfold updateNewEpoch at h
+  split at h
+  · simp at h
+  · split at h
+    · simp at h
+    · injection h with h; subst h; rfl
+
+theorem genesis_from (nt : Nat) (e : Env) (h : Nat) (gasInit : Int) (l0 l : Ledger) (hh : h ≠ nt)
+    (e0 : l0.neo = [] ∧ l0.gas = [] ∧ l0.cands = [] ∧ l0.deps = [] ∧ l0.voters = 0 ∧ l0.neoSupply = 0 ∧ l0.gasSupply = 0)
+    (hg : genesisFrom e l0 h gasInit = some l) : Inv nt l := by
+  unfold genesisFrom at hg
   obtain ⟨z1, z2, z3, z4, z5, z6, z7⟩ := e0
   obtain ⟨hv0, hg0, hn0⟩ := empty_inv nt l0 z1 z2 z3 z4 z5 z6 z7
-  cases hm : mintNeo ⟨0, 0, 0, 0, 0, [], 0, 0⟩ l0 h 100000000 with
+  cases hm : mintNeo e l0 h 100000000 with
   | none => simp [hm] at hg
   | some l1 =>
     simp only [hm] at hg
@@ -267,7 +280,21 @@ theorem genesis_inv (nt h : Nat) (gasInit : Int) (l : Ledger) (hh : h ≠ nt) (h
     have hi1 : Inv nt l1 := by
       refine ⟨s1, by rw [s2, z6]; rfl, ?_, by rw [s4, s5]; exact hg0, by rw [s4, s6]; exact hn0⟩
       rw [s3, s2, z1, z6]; simp [sumBy]
-    have := hi1.mintGas hg
-    simpa [hh] using this
+    cases hu : updateNewEpoch e l1 with
+    | none => simp [hu] at hg
+    | some l2 =>
+      simp only [hu] at hg
+      have hi2 : Inv nt (neoOnPersist e l2) :=
+        (hi1.congr (sameCore_updateNewEpoch _ _ _ hu)).congr (sameCore_neoOnPersist _ _)
+      have := hi2.mintGas hg
+      simpa [hh] using this
+
+theorem genesis_inv (nt : Nat) (e : Env) (h : Nat) (gasInit : Int) (l : Ledger) (hh : h ≠ nt) (hg : genesis e h gasInit = some l) :
+    Inv nt l := by
+  unfold genesis at hg
+  simp only [] at hg
+  split at hg
+  · simp at hg
+  · exact genesis_from nt _ h gasInit _ l hh ⟨rfl, rfl, rfl, rfl, rfl, rfl, rfl⟩ hg
 
 end NeoModel.Tokens
